@@ -93,6 +93,14 @@ func checkC18(c *Ctx, r *Report) {
 		}
 	}
 
+	{
+		var fs []string
+		for _, st := range stamps {
+			fs = append(fs, st.field)
+		}
+		defer rulesFreshStamp(c, r, fs)
+	}
+
 	// R2: DeleteTorrent in scheduler
 	r2 := r.Rule("R2", "E-GUARD+E-OWN", "TorrentArchive.DeleteTorrent is called in the scheduler only on the !Complete() side of the dispatcher test (idle/cancel removal) or from the manual removal event; and every removal of a control deletes the partial file on its incomplete side", 2)
 	for _, cs := range c.CallsTo("(lib/torrent/storage.TorrentArchive).DeleteTorrent") {
